@@ -35,6 +35,7 @@ Verdict check_one(const TGraph &t, const std::string &algo, const McbOracle &opt
         return {"exception", "threw a non-std exception"};
     }
     auto idx = to_indices(bg, cycles);
+    vp_dig_double((double) ret); vp_dig(idx.size());          // layout-independent part of the result
     Verdict v = check_basis_shape(t, idx);                     // C01
     if (!v.ok()) return v;
     double sum = cycles_weight(t, idx);
